@@ -13,7 +13,7 @@ PLAN = {
     "C05": {"drivers": ["small-rep", "repeats", "fallbacks", "front:hist", "big"], "models": ["rep", "repconv"]},
     "C06": {"drivers": ["presentation", "char-classes", "front:hist", "fallbacks"], "models": ["lang", "verbose", "print"]},
     "C07": {"drivers": ["lattice", "char-classes", "front:hist", "front:large"], "models": ["builder-rust", "apalache-builder"]},
-    "C08": {"models": ["pipeline"], "drivers": ["small-anchors", "anchors", "fallbacks", "front:hist"]},
+    "C08": {"models": ["pipeline"], "drivers": ["small-anchors", "anchors", "fallbacks", "front:hist", "front:cli"]},
     "C09": {"drivers": ["class-sweep"], "models": ["class"]},
     "C10": {"drivers": ["orders", "front:hist", "big"], "models": ["builder-rust"]},
     "C11": {"drivers": ["escape-words", "front:escsweep", "fallbacks", "front:hist"], "models": ["front-laws", "escape"]},
